@@ -11,12 +11,14 @@ func init() {
 		Setup: func(w *World) { setupCdp(w); w.warmOracle() },
 		Gens: func(w *World) []OpGen {
 			cfgTriggerBoost = w.Cfg.K("trigger_boost")
-			return append(append(append(cdpGens(), liqGens()...), auxGens()...), extRewardGens()...)
+			return append(append(append(append(cdpGens(), liqGens()...), auxGens()...), extRewardGens()...), v1Gens()...)
 		},
 		PBlock: 220,
 	}
 
-	cdpGensAll := func(w *World) []OpGen { return append(append(append(cdpGens(), liqGens()...), auxGens()...), extRewardGens()...) }
+	cdpGensAll := func(w *World) []OpGen {
+		return append(append(append(append(cdpGens(), liqGens()...), auxGens()...), extRewardGens()...), v1Gens()...)
+	}
 	scenarios["cdp+export"] = &Scenario{
 		Name: "cdp+export", NActors: cdpActors, Draw: drawCdpConfig,
 		Setup: func(w *World) { setupCdp(w); w.warmOracle() },
@@ -75,6 +77,9 @@ func init() {
 			if cfg.Scenario == "cdp+ctl" && r.Chance(2, 3) {
 				cfg.Knobs["esm"] = 1 // emergency shutdown can be executed in this run
 			}
+			if cfg.Scenario == "cdp" && r.Chance(1, 4) {
+				cfg.Knobs["v1"] = 1
+			}
 		},
 		Essential: []string{"c01.checked_with_open_vaults"},
 		BatchProbe: []string{"c01.checked_with_open_vaults", "c01.checked_with_locked_vaults", "c01.checked_after_emergency_redemption"},
@@ -98,7 +103,7 @@ func init() {
 	}
 	props["C09"] = &PropSpec{
 		ID: "C09", Level: "exploration", Scenarios: []string{"cdp"},
-		Oracles:   func(w *World) []Oracle { return []Oracle{&c09Oracle{}} },
+		Oracles:   func(w *World) []Oracle { return []Oracle{&c09Oracle{}, &v1Oracle{prop: "C09"}} },
 		Quick:     Budget{Runs: 160, MaxEvents: 160},
 		Thorough:  Budget{Runs: 2400, MaxEvents: 400},
 		Essential: []string{"c09.seizure_checked"},
@@ -108,6 +113,12 @@ func init() {
 				cfg.Knobs["liq_v2"] = 1
 			}
 			cfg.Knobs["path_mode"] = []int64{pathCrash, pathSaw, pathWalk, pathCrash}[r.Intn(4)]
+			if r.Chance(1, 3) {
+				cfg.Knobs["v1"] = 1 // the app is also whitelisted for the first-generation liquidate message
+				if r.Bool() {
+					cfg.Knobs["liq_v2"] = 0
+				}
+			}
 			if cfg.Knobs["vol"] < 8 {
 				cfg.Knobs["vol"] = 8 + r.Range(0, 17)
 			}
@@ -122,7 +133,7 @@ func init() {
 				return []Oracle{newC10(), &c10LendCustody{}}
 			}
 			// "no unaccounted remainder stays in auction custody": the custody ledger of the auctionsV2 account
-			return []Oracle{newC10(), &relabel{inner: newC11(), only: "c11.custody", prop: "C10", id: "c10.custody"}}
+			return []Oracle{newC10(), &relabel{inner: newC11(), only: "c11.custody", prop: "C10", id: "c10.custody"}, &v1Oracle{prop: "C10"}}
 		},
 		Quick:     Budget{Runs: 160, MaxEvents: 180},
 		Thorough:  Budget{Runs: 2400, MaxEvents: 400},
@@ -134,6 +145,12 @@ func init() {
 			}
 			cfg.Knobs["dutch_on"] = 1
 			cfg.Knobs["debt_oracle"] = 1
+			if strings.HasPrefix(cfg.Scenario, "cdp") && r.Chance(1, 3) {
+				cfg.Knobs["v1"] = 1 // first-generation liquidate message and dutch bids are usable too
+				if r.Bool() {
+					cfg.Knobs["liq_v2"] = 0 // ... and the second-generation sweep does not get there first
+				}
+			}
 			cfg.Knobs["path_mode"] = []int64{pathCrash, pathSaw, pathCrash}[r.Intn(3)]
 			if cfg.Knobs["vol"] < 8 {
 				cfg.Knobs["vol"] = 8 + r.Range(0, 17)
